@@ -10,14 +10,21 @@ locksets + the accessed object's atomicity taken from its declared type) and the
 (results equal those of some sequential order).
 Multi-threaded planners: sampled schedules of pRRT, pSBL, CForest, PRM family and
 AnytimePathShortening are judged by the same PlannerContract as single-threaded planners.
+The inside of those planners (tools/checks/c19_planners.py): protocol models of pSBL's threadSolve, PRM's two-thread
+solve, CForest's and AnytimePathShortening's sharing and GoalStates::sampleGoal at the code's atomicity (TLC: safety +
+termination), bound to the code by hooks in the planners: harness/concplan.cpp records real, schedule-perturbed runs
+and TLC validates them against SharedMemTrace.tla (race rule with fork/join/lock happens-before, mutex ownership
+rules), PSBLTrace.tla (purpose of the loopLock_ scheme) and the planner contract.
 """
 import json
 import os
 import random
 import shutil
 import subprocess
+import concurrent.futures
 import vlib
 import planrun
+import c19_planners
 from vlib import Check, run_tlc, run_cmd, build_harness, validate_trace, FrameworkError, WORK, log
 
 PID = "C19"
@@ -155,15 +162,45 @@ def run(tier):
         "enumerated on the protocol model only",
         "lock ownership is read from glibc's mutex owner field; atomicity from the declared type of the accessed object",
     ]
-    protocol_models(ck)
-    binary = build_harness("conc", needs_lib=True, opt="-O2")
-    surface(ck, tier, binary)
-    pbin = build_harness("planners", needs_lib=True)
+    ck.assumptions += [
+        "planner internals: happens-before comes from the recorded fork/join and lock events only (an ordering that exists "
+        "through an unhooked synchronisation is not seen); schedules are perturbed at the hooks' yield points and at "
+        "unprotected accesses, seeded, and sampled - all interleavings are enumerated on the protocol models only",
+        "the protocol model variant used for verdicts is the one the recorded traces show the code implements",
+    ]
+    vlib.build_lib()
+    models = c19_planners.Models(tier)
+    models.start()          # TLC jobs of the planner protocol models run in the background
+    with concurrent.futures.ThreadPoolExecutor(max_workers=3) as ex:
+        fb = {n: ex.submit(build_harness, n, True, None, (), "plain", o) for n, o in (("conc", "-O2"), ("planners", "-O1"), ("concplan", "-O1"))}
+        protocol_models(ck)
+        binary, pbin, cbin = fb["conc"].result(), fb["planners"].result(), fb["concplan"].result()
+    with concurrent.futures.ThreadPoolExecutor(max_workers=2) as ex:
+        f1 = ex.submit(surface, ck, tier, binary)
+        feats = c19_planners.planner_traces(ck, tier, cbin)
+        f1.result()
     mt_planners(ck, tier, pbin)
+    models.judge(ck, feats)
     return ck.finish()
 
 
 def replay(path):
+    if os.path.basename(path).startswith("model-"):
+        print(open(path).read()[-6000:])
+        print("TLC counterexample of the protocol model (re-run: tools/checks/c19_planners.py Models)")
+        return 1
+    if os.path.basename(path).startswith("psbl-protocol-"):
+        bad = []
+        validate_trace("conc/PSBLTrace", path, json_sink=bad.append)
+        fails = sorted({c for b in bad for c in b.get("failed", [])})
+        print("recorded pSBL protocol trace:", "REJECTED %s" % fails if fails else "accepted")
+        return 1 if fails else 0
+    if os.path.basename(path).startswith("plan-"):
+        bad = []
+        validate_trace("conc/SharedMemTrace", path, json_sink=bad.append)
+        fails = sorted({k for b in bad for k in c19_planners.race_key(b)})
+        print("recorded planner trace:", "REJECTED %s" % fails if fails else "accepted")
+        return 1 if fails else 0
     if path.endswith(".ndjson"):
         bad = []
         acc, prefix, res = validate_trace("conc/SharedMemTrace", path, json_sink=bad.append)
